@@ -383,6 +383,9 @@ func (r *runner) exec(cs *Case) (outcome, func() (int, error)) {
 		f = streamFunc(cs, in)
 	case "util":
 		o.entry = "typeutils." + cs.Tgt
+		if strings.Contains(cs.Tgt, ".") {
+			o.entry = cs.Tgt
+		}
 		f = utilFunc(cs, in)
 	}
 	if f == nil {
